@@ -553,11 +553,13 @@ theorem post_ltt_new (off : Int) (dst : Bool) (name : Option (List Nat)) :
 
 /-! ### the whole TZ string -/
 def LttV (t : Ltt) : Prop := -100000 ≤ t.off ∧ t.off ≤ 100000
+/-- DST flag as stated and a legal designation -/
+def LttN (t : Ltt) (dst : Bool) : Prop := t.dst = dst ∧ ∃ n, t.name = some n ∧ NameOk n
 /-- what `from_tz_string` guarantees about its result (enough for the lookup in `validate`) -/
 def RuleV : Rule → Prop
-  | .fixed t => LttV t
+  | .fixed t => LttV t ∧ LttN t false
   | .alt a => LttV a.std ∧ LttV a.dst ∧ DayOk a.dstStart ∧ DayOk a.dstEnd
-      ∧ TimeV a.dstStartTime ∧ TimeV a.dstEndTime
+      ∧ TimeV a.dstStartTime ∧ TimeV a.dstEndTime ∧ LttN a.std false ∧ LttN a.dst true
 
 theorem post_parse_offset (c : Cursor) :
     Post (parse_offset c) (fun r => -89999 ≤ r.1 ∧ r.1 ≤ 89999) :=
@@ -591,8 +593,8 @@ theorem post_from_tz_string (s : List Nat) (ext : Bool) : Post (from_tz_string s
   · rw [ck32_ok (by omega) (by omega)]
     simp only [P.bind_ok]
     refine post_bind (post_ltt_new _ _ _) ?_
-    rintro t - ⟨rfl, -, -⟩
-    exact post_ok (by simp only [RuleV, LttV]; omega)
+    rintro t - ⟨rfl, -, hn⟩
+    exact post_ok ⟨by simp only [LttV]; omega, rfl, _, rfl, hn _ rfl⟩
   · refine post_bind (post_true (np_parse_name _)) ?_
     rintro ⟨dstn, c3⟩ - -
     refine post_bind (post_parse_dst_offset so hso _) ?_
@@ -614,14 +616,15 @@ theorem post_from_tz_string (s : List Nat) (ext : Bool) : Post (from_tz_string s
       · rw [ck32_ok (by omega) (by omega)]
         simp only [P.bind_ok]
         refine post_bind (post_ltt_new _ _ _) ?_
-        rintro std - ⟨rfl, -, -⟩
+        rintro std - ⟨rfl, -, hn1⟩
         rw [ck32_ok (by omega) (by omega)]
         simp only [P.bind_ok]
         refine post_bind (post_ltt_new _ _ _) ?_
-        rintro dst - ⟨rfl, -, -⟩
+        rintro dst - ⟨rfl, -, hn2⟩
         refine post_bind (post_alt_new _ _ _ _ _ _) ?_
         rintro a - rfl
-        exact post_ok (by simp only [RuleV, LttV]; refine ⟨?_, ?_, hd1, hd2, ht1, ht2⟩ <;> omega)
+        exact post_ok ⟨by simp only [LttV]; omega, by simp only [LttV]; omega, hd1, hd2, ht1, ht2,
+          ⟨rfl, _, rfl, hn1 _ rfl⟩, ⟨rfl, _, rfl, hn2 _ rfl⟩⟩
 
 /-! ### the rule lookup used by `validate` never panics -/
 theorem cumul_get : ∀ m, m < 12 →
@@ -742,7 +745,7 @@ macro "alt_step" : tactic => `(tactic| first
 
 theorem post_alt_find (a : Alt) (t : Int) (h : RuleV (.alt a)) :
     Post (a.find_local_time_type t) (fun _ => True) := by
-  obtain ⟨hs, hd, hd1, hd2, ht1, ht2⟩ := h
+  obtain ⟨hs, hd, hd1, hd2, ht1, ht2, -, -⟩ := h
   unfold LttV at hs hd
   unfold TimeV at ht1 ht2
   unfold Alt.find_local_time_type
@@ -752,7 +755,7 @@ theorem post_alt_find (a : Alt) (t : Int) (h : RuleV (.alt a)) :
   split
   · exact post_err
   · rename_i g
-    simp only [Bool.not_eq_true', Bool.not_eq_false, Bool.and_eq_true, decide_eq_true_eq, I32_MIN, I32_MAX] at g
+    simp only [Bool.not_eq_true', Bool.not_eq_false, Bool.and_eq_true, I32_MIN, I32_MAX] at g
     have g1 := of_decide_eq_true g.1
     have g2 := of_decide_eq_true g.2
     refine post_bind (post_unix_time _ _ _ hd1 hcy (by omega)) ?_
